@@ -159,7 +159,9 @@ impl Prop for C04 {
         let whole = QOp::Interval { c: 0, a: PosSel::Zero, b: PosSel::Size };
         let left = QOp::Interval { c: 0, a: PosSel::Zero, b: PosSel::Frac(40_000) };
         let right = QOp::Interval { c: 0, a: PosSel::Frac(20_000), b: PosSel::Size };
-        vec![Case {
+        vec![
+            Case { file: c02::wide_node_case(3000), history: vec![whole.clone(), QOp::Inside { c: 0, idx: 30_000, frac: 100, width: 3 }, QOp::Repeat(0)] },
+            Case {
             file: c02::deep_index_case(70_000),
             history: vec![
                 whole.clone(),
